@@ -133,6 +133,10 @@ impl Check for C02 {
         out.count("answers", real.answers.len() as u64);
         out.count("engine_steps", real.steps);
         out.count("answers_with_constraints", real.answers.iter().filter(|a| !a.cons.is_empty()).count() as u64);
+        if cut_at_cap(real.ended, real.answers.len(), true, rans.len()) {
+            out.count("comparisons_skipped_answer_cap", 1);
+            return out;
+        }
         match compare_multisets(&real.answers, &rans, &uni) {
             Cmp::Equal => out.count("ref_compared_instances", 1),
             Cmp::EqualTuplesOnly => out.count("tuples_only", 1),
@@ -228,7 +232,9 @@ impl Check for C02 {
                 continue;
             }
             out.count("permutations_compared", 1);
-            if let Cmp::Different(why) = compare_multisets(&real.answers, &r2.answers, &uni) {
+            if cut_at_cap(real.ended, real.answers.len(), r2.ended, r2.answers.len()) {
+                out.count("comparisons_skipped_answer_cap", 1);
+            } else if let Cmp::Different(why) = compare_multisets(&real.answers, &r2.answers, &uni) {
                 out.violate("M-meta", "answers depend on the posting order", format!("original vs permuted: {} | original {} | permuted {} | permuted program: {}", why, show_answers(&real.answers), show_answers(&r2.answers), pv), format!("{}", prog));
                 break;
             }
@@ -251,7 +257,9 @@ impl Check for C02 {
             }
             // the state-level answers must agree with the query-level answers
             let sa: Vec<Ans> = st.finals.iter().map(|f| f.answer.clone()).collect();
-            if let Cmp::Different(why) = compare_multisets(&sa, &rans, &uni) {
+            if cut_at_cap(st.ended, sa.len(), true, rans.len()) {
+                out.count("comparisons_skipped_answer_cap", 1);
+            } else if let Cmp::Different(why) = compare_multisets(&sa, &rans, &uni) {
                 out.violate("M-ref", "final states differ from the reference semantics", format!("states vs reference: {} | states {} | reference {}", why, show_answers(&sa), show_answers(&rans)), format!("{}", prog));
             }
         }
